@@ -19,6 +19,8 @@ FILES = {
     "tok_char.lua": "local y = 3 $ 4\n",
     "tok_number.lua": "local x = 0x\n",
     "sub/tok.lua": "local s = 'unclosed\n",
+    "sub/mod.luau": "print(undefined_thing)\nlocal w = 1\n",
+    "vendor/mod.luau": "print(undefined_thing)\n",
     "empty.lua": "",
     "ex_warn.lua": "local x = 1\n",
     "ex_err.lua": "print(undefined_thing)\n",
@@ -108,7 +110,7 @@ class C19(Prop):
             open(os.path.join(pd, "selene.toml"), "w").write(
                 ctext.split("[lints]")[0] + "exclude = %s\n" % str(EXCLUDE).replace("'", '"') +
                 ("[lints]" + ctext.split("[lints]")[1] if "[lints]" in ctext else ""))
-            lua = [f for f in FILES if f.endswith(".lua")]
+            lua = [f for f in FILES if f.endswith(".lua") or f.endswith(".luau")]
             outcomes[cname] = cli.harness_lint(pd, os.path.join(pd, "selene.toml"), lua)
             if "__error__" in outcomes[cname]:
                 raise RuntimeError("harness lint failed: %r" % outcomes[cname]["__error__"])
@@ -133,7 +135,7 @@ class C19(Prop):
                 else:
                     d = rnd.choice(DIRS)
                     args.append(d)
-                    inner = sorted(f for f in list(FILES) + UNREADABLE if f.startswith(d + "/") and f.endswith(".lua"))
+                    inner = sorted(f for f in list(FILES) + UNREADABLE if f.startswith(d + "/") and (f.endswith(".lua") or f.endswith(".luau")))
                     entries.append("(EDir %s)" % cli.glist(
                         "{| f_excluded := %s; f_outcome := %s |}" % (cli.gbool(excluded(f)), "Unreadable" if f in UNREADABLE else outcome_term(oc[f]))
                         for f in inner))
